@@ -27,6 +27,16 @@ theorem const_data_header : sctpDataHdr = 12 ∧ sctpHandleDataMin = sctpDataHdr
 routed to `handle_dcep`) -/
 theorem const_ppids : dcPpidString ≠ dcPpidDcep ∧ dcPpidBinary ≠ dcPpidDcep := by decide
 
+/-- generated-constant obligation: the numbers the receive / setup model writes as literals are the
+ones in the source (duplicate test half-range, default peer window, State-Cookie and RE-CONFIG
+parameter types, the 7/8 receive-queue fill at which the advertised window becomes 0, the DCEP
+message types). A change of any of them in `sctp.rs` / `datachannel.rs` breaks this proof, which
+is the signal to revisit `SctpRecv.lean` / `SctpAssoc.lean` / `SctpDcep.lean`. -/
+theorem const_model_literals :
+    sctpDupHalf = 2147483648 ∧ sctpDefaultPeerRwnd * 1024 = 262144 ∧ sctpCookieParam = 7 ∧
+    sctpReconfigOutSsnReset = 13 ∧ sctpRwndGuardNum = 7 ∧ sctpRwndGuardDen = 8 ∧
+    dcepTypeOpen = 3 ∧ dcepTypeAck = 2 ∧ ctShutdownComplete = 14 := by decide
+
 /-- **frag_reassemble**: for every payload (the empty one included), every positive fragment
 size, every stream/SSN and every initial TSN, the fragments `send_data_raw` produces, processed in
 order by `process_data_payload` on an ordered channel whose stream expects that SSN, deliver
@@ -359,6 +369,56 @@ theorem t3_round_progress_partial (r0 : SRec) (rest : List SRec) (now mx flight 
     rw [hlen, hlen2]
     apply List.length_filter_lt_length_iff_exists.mpr
     exact ⟨r0, by simp, by simp [hcov]⟩
+
+/-- one retransmission round: the T3 marking, then the SACK the peer answers with -/
+structure Round where
+  cum  : UInt32
+  gaps : List (UInt16 × UInt16) := []
+  now  : Nat := 0
+  cm   : Bool := true
+
+def roundStep (mx : Nat) (q : List SRec) (r : Round) : List SRec :=
+  (applySack (t3Mark r.now mx q 0) r.cum r.gaps r.now r.cm mx).1
+
+/-- "the network delivers reliably from now on": in every round the retransmission of the first
+record of the sent queue arrives and so does the SACK that acknowledges it (it covers that record
+and is not discarded by the late-SACK filter); anything else may still be lost -/
+def CoveringRun (mx : Nat) : List SRec → List Round → Prop
+  | _, [] => True
+  | q, r :: rest =>
+    (match t3Mark r.now mx q 0 with
+     | [] => True
+     | r0 :: tl => i32NonPos (r0.tsn - r.cum) = true ∧ lateSack (r0 :: tl) r.cum r.gaps = false) ∧
+    CoveringRun mx (roundStep mx q r) rest
+
+/-- **t3_rounds_drain** (liveness on the abstract round model; no clock): whatever the sent queue
+holds — any number of records, any flags, any TSNs — once the network delivers reliably in the
+sense of `CoveringRun`, as many retransmission rounds as there are records empty it: every record
+is acknowledged and removed, none is retransmitted for ever. (`t3_round_progress_partial` says that
+the first record is indeed retransmitted in each round when it is reliable and unacknowledged; that
+the receiver then delivers is `recv_complete`.) What stays outside: real time (RTO back-off, the
+T3 minimum-interval guard) and heartbeat failure closing the association. -/
+theorem t3_rounds_drain (mx : Nat) : ∀ (rounds : List Round) (q : List SRec),
+    CoveringRun mx q rounds → q.length ≤ rounds.length → rounds.foldl (roundStep mx) q = [] := by
+  intro rounds
+  induction rounds with
+  | nil => intro q _ h; exact List.eq_nil_of_length_eq_zero (by simpa using h)
+  | cons r rest ih =>
+    intro q hc hl
+    simp only [List.foldl_cons]
+    obtain ⟨h1, h2⟩ := hc
+    apply ih _ h2
+    have hml := t3Mark_length r.now mx q 0
+    unfold roundStep
+    cases hm : t3Mark r.now mx q 0 with
+    | nil =>
+      have : (applySack [] r.cum r.gaps r.now r.cm mx).1 = [] := applySack_nil _ _ _ _ _
+      rw [this]; simp
+    | cons r0 tl =>
+      rw [hm] at h1 hml
+      have := covered_head_leaves r0 tl r.cum r.gaps r.now r.cm mx h1.1 h1.2
+      simp only [List.length_cons] at this hml hl ⊢
+      omega
 
 /-! ### the whole endpoint: setup chunks, SACKs and heartbeats mixed in -/
 
